@@ -1,0 +1,33 @@
+//go:build verif && !noquotas
+// +build verif,!noquotas
+
+package runtime
+
+func verifCheckLive(t *Thread, what string) {
+	if st := t.Runtime.runtimeContextManager.status; st != StatusLive {
+		verifReport("notlive", "%s executed in a context whose status is %s", what, st)
+	}
+}
+
+// kind: 0 = cpu, 1 = memory.  Called after the used counter was increased.
+func verifRequired(m *runtimeContextManager, kind int, amount uint64) {
+	used, limit, name := m.usedResources.Cpu, m.hardLimits.Cpu, "cpu"
+	if kind == 1 {
+		used, limit, name = m.usedResources.Memory, m.hardLimits.Memory, "memory"
+	}
+	if used < amount {
+		verifReport("wrap", "%s counter wrapped around: used=%d after requiring %d", name, used, amount)
+	}
+	if atLimit(used, limit) {
+		verifReport("overlimit", "%s used=%d reached hard limit %d (context status %s)", name, used, limit, m.status)
+	}
+}
+
+// VerifContextDepth returns the number of contexts on the context stack.
+func VerifContextDepth(r *Runtime) int {
+	n := 0
+	for m := &r.runtimeContextManager; m != nil; m = m.parent {
+		n++
+	}
+	return n
+}
